@@ -129,7 +129,7 @@ class PathState:
 class Exec:
     def __init__(self, f, call_handler, havoc=None, word_args=(), unroll=False, arg_consts=None, int_cells=None, auto=False,
                  split_max=8, starts=None, pre_conds=(), callee_writes=None, word_phis=None, fresh_per_entry=False, exit_eq=None, unrotate=False,
-                 head_consts=None, congr=None, cell_alias=None, peel=()):
+                 head_consts=None, congr=None, cell_alias=None, peel=(), endptr=False):
         """call_handler(ex, path, inst, callee, argvalues) -> result value or None
         havoc(ex, path, header) is called when a fresh iteration starts at a loop header"""
         self.f = f
@@ -142,6 +142,8 @@ class Exec:
         self.word_args = set(word_args)
         self.unroll = unroll
         self.arg_consts = dict(arg_consts or {})
+        self.endptr = endptr            # loops driven by a cursor and an END POINTER (no remaining-length phi): the distance end - cursor is given a symbol of its own at the head
+        self.vrem = {}                  # head -> (virtual phi id, cursor phi id, valref of the end pointer)
         self.peel = set(peel or ())      # loop heads whose first iteration belongs to the entry path (helper values that are special in the first round only)
         self.cell_alias = dict(cell_alias or {})   # integer cell (obj, off, n) -> cell whose unknown head value it shares (an inferred invariant: both hold the same value at every loop entry and back edge)
         self.int_cells = int_cells      # predicate (obj, off, nbytes) -> treat the cell as an integer (linear form), not as data bits
@@ -603,6 +605,11 @@ class Exec:
                         for inc, pb in I.get("inc"):
                             if pb == pred:
                                 q.env[("back", I.id)] = self.val(p, tuple(inc))
+                    vr = self.vrem.get(b)
+                    if vr is not None:
+                        endv, bc = q.env.get(vr[2]), q.env.get(("back", vr[1]))
+                        if endv is not None and bc is not None and not is_word(endv) and not is_word(bc):
+                            q.env[("back", vr[0])] = endv.add(bc, -1)
                     self._finish(q, ("backedge", b))
                     return
                 else:
@@ -615,12 +622,26 @@ class Exec:
                         for inc, pb in I.get("inc"):
                             if pb == pred:
                                 q.env[("init", I.id)] = self.val(p, tuple(inc))
+                    vr = None
+                    if self.endptr:
+                        vr = self.vrem.get(b)
+                        if vr is None:
+                            fe = self._find_endptr(q, b)
+                            if fe is not None:
+                                vr = self.vrem[b] = (-(fe[0].id + 1), fe[0].id, fe[1])
+                        if vr is not None:
+                            ini_c, endv = q.env.get(("init", vr[1])), q.env.get(vr[2])
+                            if ini_c is not None and endv is not None and not is_word(ini_c) and not is_word(endv):
+                                q.env[("init", vr[0])] = endv.add(ini_c, -1)        # what remains when the loop is entered
                     self._finish(q, ("loop-entry", b))
                     if b not in started_heads or self.fresh_per_entry:
                         started_heads.add(b)
                         n = q.clone()
                         n.events = []
                         n.blocks = []
+                        if vr is not None:
+                            # generic iteration: the end pointer is the cursor plus an unknown remaining length
+                            n.env[vr[2]] = Lf({("hdp", vr[1]): 1, ("hd", vr[0]): 1})
                         if not self.fresh_per_entry:
                             n.conds = [("ult", Lf({rs_: 1, 1: -cb_}), True) for (qs_, rs_, sa_, cb_) in q.divs.values()]
                             n.eqs = {}
@@ -906,6 +927,37 @@ class Exec:
         if 1 < len(cand) <= self.split_max:
             return (syms[0], cand)
         return None
+
+    def _find_endptr(self, q, b):
+        """loop b carries pointer cursors but no integer: is there ONE loop-invariant pointer into the same object as a cursor (the cursor's
+        start plus a length) that the loop uses?  -> (cursor phi, valref of the end pointer) or None"""
+        f = self.f
+        L = self.heads[b]
+        phis = [f.insts[i] for i in f.blocks[b].insts if f.insts[i].op == "phi"]
+        if any(not (I.get("ty") or "").endswith("*") for I in phis) or not phis:
+            return None
+        used = set()
+        for bb in L["blocks"]:
+            for iid in f.blocks[bb].insts:
+                for o in f.insts[iid].ops:
+                    if isinstance(o, (tuple, list)) and len(o) >= 2 and o[0] == "i":
+                        J = f.insts[o[1]]
+                        if J.b not in L["blocks"]:
+                            used.add(("i", o[1]))
+        found = []
+        for P in phis:
+            ini = q.env.get(("init", P.id))
+            if ini is None or is_word(ini) or ini.base()[0] is None:
+                continue
+            root = ini.base()[0]
+            for v in sorted(used):
+                x = q.env.get(v)
+                if x is None or is_word(x) or not isinstance(x, Lf) or x.base()[0] != root or x == ini:
+                    continue
+                d = x.add(ini, -1)
+                if d and all(s_ == 1 or (isinstance(s_, tuple) and s_[0] == "n") for s_ in d) and any(s_ != 1 for s_ in d):
+                    found.append((P, v))
+        return found[0] if len(found) == 1 else None
 
     def _auto_havoc(self, p, L):
         """everything the loop (incl. nested loops and callees given pointers) may write becomes unknown at the head"""
@@ -1222,6 +1274,8 @@ class Exec:
             ob, of = (v.base() if not is_word(v) else (None, None))
             if ob is not None and of.const() is not None:
                 p.env[k] = self._addr_lf(p, ob, of.const())
+            elif ob is not None and self._lengthlike(of):
+                p.env[k] = self._addr_lf(p, ob, 0).add(of)
             else:
                 p.env[k] = [gf2.TOP] * 64
             return
